@@ -137,6 +137,13 @@ def r1(ctx):
         s, ct, v = tgt[k]
         ok = poly.poly(ct[1][2]) == pi and poly.poly(ct[2]) == pj and match(v, ('field', ANY, 0 if k == 'd' else 1))
         ctx.require(ok, b, 'target|' + k, '%s[a_idx+1][b_idx+1] gets component %d of the selected candidate' % (k, 0 if k == 'd' else 1), None, s.span)
+    # every cell of the table is computed: from the pull of the inner loop every way to the next iteration passes the store of d[i][j]
+    # (a band / early `continue` leaves cells at their initial 0 and the matching is shorter than a longest common subsequence)
+    from analysis.sym import variant_edges
+    some_b = [e[1] for e in variant_edges(b, sym(b, nxb[0].dest), 'Some')]
+    allc = bool(some_b) and all(cfg.must_pass(b, some_b[0], l, via_blocks=[tgt['d'][0].bb]) for l in inner.latches)
+    ctx.require(allc, b, 'all-cells', 'every cell (i, j) of the LCS table is computed', 'an iteration of the inner loop can skip the cell: cells outside some band keep their initial '
+                'value 0, common words that are far from the diagonal are never matched', tgt['d'][0].span)
     # candidates: array of tuples
     arr = None
     z = symbolizer(b)
@@ -314,20 +321,63 @@ def r2(ctx):
     ctx.require(ok, b, 'result', 'returns (matches, |a_words|, |b_words|)', 'returns %s' % [show_in(b, x) for x, _ in rv])
     mw = ctx.body('text::match_words')
     rv = ret_values(mw)
-    ok = len(rv) == 1 and match(core(rv[0][0]), Call('match_words_with', ('arg', 1, ANY), ('arg', 2, ANY), Call('str_match_fn', ('arg', 3, ANY))))
-    ctx.require(ok, mw, 'wrapper', 'match_words(a, b, ic) = match_words_with(a, b, str_match_fn(ic))', None)
-    sm = ctx.body('text::str_match_fn')
-    clos = [c for c in ctx.facts.bodies if c.kind == 'Closure' and c.parent == sm.path]
-    kinds = {}
-    for c in clos:
+
+    def kind_of(c):
         rvc = ret_values(c)
         if len(rvc) == 1:
             v = core(rvc[0][0])
             if match(v, ('bin', 'Eq', ('arg', 2, ANY), ('arg', 3, ANY))):
-                kinds['exact'] = c
-            elif v[0] == 'bin' and v[1] == 'Eq' and has(v[2], Call('to_lowercase', ANY)) and has(v[3], Call('to_lowercase', ANY)):
-                kinds['lower'] = c
+                return 'exact'
+            if v[0] == 'bin' and v[1] == 'Eq' and has(v[2], Call('to_lowercase', ('arg', 2, ANY))) and has(v[3], Call('to_lowercase', ('arg', 3, ANY))):
+                return 'lower'
+        return None
+    direct = len(rv) == 1 and match(core(rv[0][0]), Call('match_words_with', ('arg', 1, ANY), ('arg', 2, ANY), Call('str_match_fn', ('arg', 3, ANY))))
+    if not direct:
+        # the same dispatch written out in match_words: one call per value of the flag, each with its own comparison closure
+        from analysis.alts import ret_alts_paths, flatten, Alt, consistent
+        from rules.common import closure_of
+        table = {}
+        okw = True
+        for a_ in ret_alts_paths(ctx.facts, mw) or []:
+            for x_ in flatten(a_.value):
+                m_ = Alt(nosite(x_.value), list(a_.variants) + list(x_.variants), list(a_.atoms) + list(x_.atoms))
+                if not consistent(m_):
+                    continue
+                fl = [pol for tt, pol in m_.atoms if match(core(tt), ('arg', 3, ANY))]
+                e = {}
+                if len(set(fl)) == 1 and match(core(m_.value), Call('match_words_with', ('arg', 1, ANY), ('arg', 2, ANY), Cap('f')), e) and \
+                        isinstance(peel(e['f']), tuple) and peel(e['f'])[0] == 'agg' and peel(e['f'])[1] == 'closure':
+                    table.setdefault(fl[0], set()).add(kind_of(closure_of(ctx, peel(e['f']))))
+                else:
+                    okw = False
+        ctx.require(okw and table == {True: {'lower'}, False: {'exact'}}, mw, 'wrapper',
+                    'match_words(a, b, ic) = match_words_with(a, b, lower-cased equality if ic else equality)',
+                    'match_words dispatches %s' % {k: sorted(map(str, v)) for k, v in table.items()})
+        return
+    ctx.require(direct, mw, 'wrapper', 'match_words(a, b, ic) = match_words_with(a, b, str_match_fn(ic))', None)
+    sm = ctx.body('text::str_match_fn')
+    clos = [c for c in ctx.facts.bodies if c.kind == 'Closure' and c.parent == sm.path]
+    kinds = {}
+    for c in clos:
+        k_ = kind_of(c)
+        if k_:
+            kinds[k_] = c
     ctx.require(set(kinds) == {'exact', 'lower'}, sm, 'match-fns', 'word equality is a == b, or lower-cased equality when ignore_case', 'found %s' % sorted(kinds))
+    # ... each under its value of the flag
+    from analysis.alts import ret_alts_paths as _rap, flatten as _fl, Alt as _Alt, consistent as _cons
+    tbl = {}
+    for a_ in _rap(ctx.facts, sm) or []:
+        for x_ in _fl(a_.value):
+            m_ = _Alt(nosite(x_.value), list(a_.variants) + list(x_.variants), list(a_.atoms) + list(x_.atoms))
+            v_ = peel(m_.value)
+            fl = [pol for tt, pol in m_.atoms if match(core(tt), ('arg', 1, ANY))]
+            if _cons(m_) and len(set(fl)) == 1 and isinstance(v_, tuple) and v_ and v_[0] == 'agg' and v_[1] == 'closure':
+                for k_, c in kinds.items():
+                    if c.path == v_[2]:
+                        tbl.setdefault(fl[0], set()).add(k_)
+    if tbl:
+        ctx.require(tbl == {True: {'lower'}, False: {'exact'}}, sm, 'match-fn-by-flag', 'ignore_case selects the lower-cased comparison, otherwise the exact one',
+                    'str_match_fn returns %s' % {k: sorted(v) for k, v in tbl.items()})
 
 
 @rule('C18', 'R-C18-3', 'T2 CHAIN (edited_words)',
